@@ -82,6 +82,14 @@ def typedLine (st : YState) (e : SExp) : YState × String :=
   match e with
   | .list [.atom "tstart", .atom k] => ({ st with kind := k }, "ok")
   | .list (.atom "tsrv" :: _) => (st, "ok")
+  | .list [.atom "tlazy", tevs, uevs, tc, uc] =>
+    match decEvs tevs, decEvs uevs, decBool tc, decBool uc with
+    | some tevs, some uevs, some tc, some uc =>
+      if !listEq evEq tevs (typedEvents (adaptKind st.kind) uevs) then
+        ({ st with dead := true }, s!"reject C20/C10 an unread typed subscription kept {tevs.length} events, the unread untyped one {uevs.length} (restricted: {(typedEvents (adaptKind st.kind) uevs).length}): {showEvs (tevs.take 3)}… vs {showEvs (uevs.take 3)}…")
+      else if tc != uc then ({ st with dead := true }, s!"reject C20/C11 after Close the typed Events() closed = {tc}, the untyped = {uc}")
+      else (st, "ok")
+    | _, _, _, _ => (st, "bad tlazy")
   | .list [.atom "tobs", tr, ur, td, ud, tc, uc, tevs, uevs, tmon, umon] =>
     let fail (m : String) : YState × String := ({ st with dead := true }, m)
     match decBool tr, decBool ur, decBool td, decBool ud with
